@@ -1,2 +1,55 @@
-From MV Require Import Common.Batch C14.Model.
-Theorem C14_placeholder : True. Proof. exact I. Qed.
+(* C14 -- Block-map chain validation accepts exactly linked chains.  Property theorems only.
+   Model: C14/Model.v (BatchIsValidMaps / IsValidMaps of base/block.go over the shared util.BatchWork
+   model Common/Batch.v); the slot-placement argument is Common/Chain.v. *)
+From Coq Require Import List ZArith NArith Arith Permutation.
+From MV Require Import Common.Batch C14.Model C14.Proofs.
+Import ListNotations.
+Open Scope nat_scope.
+
+(* util.BatchWork hands out every index of [0..size-1] exactly once, in batches of at most [limit]
+   consecutive indices whose [last] is the last index of the batch (all size, limit >= 1). *)
+Theorem C14_batches_partition : forall size limit, 1 <= limit -> 1 <= size ->
+  NoDup (concat (map snd (batches size limit))) /\
+  (forall i, In i (concat (map snd (batches size limit))) <-> i < size) /\
+  Forall (fun b => snd b <> [] /\ length (snd b) <= limit /\ last (snd b) 0 = fst b) (batches size limit).
+Proof. exact batches_partition. Qed.
+
+(* For EVERY remote [fetch] (no hypothesis on what it returns), every batch limit >= 1, every range
+   size >= 1 and every order in which the maps of each batch arrive: validation succeeds exactly
+   when, for every offset i, the remote answered with a map of the requested height whose manifest
+   points to the hash of the previous map (the given [prev] for the first; the genesis map needs no
+   previous) -- and no callback failed.  [lp_ok prev]: the given previous map has a height >= 0. *)
+Theorem C14_sound_complete : forall prev fetch cb_fail limit size orders,
+  1 <= limit -> 1 <= size -> lp_ok prev ->
+  valid_orders (batches size limit) orders ->
+  ((exists s, batch_is_valid_maps prev fetch cb_fail limit size orders = Ok s) <->
+   ((forall i, i < size -> good prev fetch i) /\ (forall i, i < size -> cb_fail i = false))).
+Proof. intros. apply sound_complete; assumption. Qed.
+
+(* non-vacuity: an honest chain of 5 after a map of height 7 is accepted with limit 3 in reversed
+   arrival order; the formerly accepted answer (height 12 answered with the map of height 11) is
+   rejected *)
+Definition ex_prev : option bmap := Some {| mh := 7%Z; mhash := 100%N; mprev := 99%N |}.
+Definition ex_fetch (i : nat) : option bmap :=
+  Some {| mh := (8 + Z.of_nat i)%Z; mhash := (101 + N.of_nat i)%N; mprev := (100 + N.of_nat i)%N |}.
+Definition ex_orders : list (list nat) := map (fun b => rev (snd b)) (batches 5 3).
+
+Example C14_example_ok :
+  exists s, batch_is_valid_maps ex_prev ex_fetch (fun _ => false) 3 5 ex_orders = Ok s.
+Proof. eexists. vm_compute. reflexivity. Qed.
+
+Example C14_example_valid_orders : valid_orders (batches 5 3) ex_orders.
+Proof.
+  unfold ex_orders. induction (batches 5 3); constructor; auto. apply Permutation_rev.
+Qed.
+
+Example C14_example_wrong_height :
+  batch_is_valid_maps ex_prev (fun i => if Nat.eqb i 4 then ex_fetch 3 else ex_fetch i) (fun _ => false) 3 5
+    (in_order (batches 5 3)) = Err EHeight.
+Proof. vm_compute. reflexivity. Qed.
+
+Example C14_example_broken_link :
+  batch_is_valid_maps ex_prev
+    (fun i => if Nat.eqb i 2 then Some {| mh := 10%Z; mhash := 103%N; mprev := 555%N |} else ex_fetch i)
+    (fun _ => false) 3 5 ex_orders = Err ELink.
+Proof. vm_compute. reflexivity. Qed.
